@@ -519,12 +519,28 @@ func (g *G) graphics() {
 			g.emit("font {size:%s family:\"serif\" align:\"center\"}", []string{"1", "3", "12"}[g.r.Intn(3)])
 		}
 	case 12:
-		g.emit("stroke \"red\"")
-		g.emit("fill \"blue\"")
-		g.emit("linecap \"round\"")
+		switch g.r.Intn(4) {
+		case 0:
+			g.emit("stroke %s", []string{`"red"`, `"none"`, `(hsl 200 50 50)`}[g.r.Intn(3)])
+		case 1:
+			g.emit("fill %s", []string{`"blue"`, `"none"`, `"hsl(10deg 50% 50%)"`}[g.r.Intn(3)])
+		case 2:
+			g.emit("linecap %s", []string{`"round"`, `"butt"`, `"square"`}[g.r.Intn(3)])
+		default:
+			g.emit("stroke \"red\"")
+			g.emit("fill \"blue\"")
+			g.emit("linecap \"round\"")
+		}
 	case 13:
-		g.emit("grid")
-		g.emit("gridn 5 \"gray\"")
+		switch g.r.Intn(3) {
+		case 0:
+			g.emit("grid")
+		case 1:
+			g.emit("gridn %s %s", []string{"5", "20", "0.5"}[g.r.Intn(3)], []string{`"gray"`, `"hsl(210deg 50% 50% / 50%)"`}[g.r.Intn(2)])
+		default:
+			g.emit("grid")
+			g.emit("gridn 5 \"gray\"")
+		}
 	}
 }
 
